@@ -402,7 +402,9 @@ func c20Trans(env *c20Env) []c20TransRow {
 		"exclude-operation-ids": {[]interface{}{"a", "b"}, "a,b", `["a","b"]`},
 		"exclude-schemas":       {[]interface{}{"a", "b"}, "a,b", `["a","b"]`},
 		"templates":             {"tpl", "tpl", `{"client.tmpl":"// x"}`},
-		"import-mapping":        {map[string]interface{}{"a.yaml": "example.com/a"}, "a.yaml:example.com/a", `{"a.yaml":"example.com/a"}`},
+		// the second key holds a colon and a comma: on the command line it is quoted
+		"import-mapping": {map[string]interface{}{"a.yaml": "example.com/a", "https://x.org/specs:v1,b.yaml": "example.com/b"},
+			`a.yaml:example.com/a,"https://x.org/specs:v1,b.yaml":example.com/b`, `{"a.yaml":"example.com/a","https://x.org/specs:v1,b.yaml":"example.com/b"}`},
 		"response-type-suffix":  {"Resp", "Resp", `"Resp"`},
 		"compatibility":         {map[string]interface{}{"old-aliasing": true}, "", `true`},
 		"generate":              {[]interface{}{"types", "chi-server"}, "types,chi-server", `true`},
@@ -653,8 +655,68 @@ func genC20(ctx *Ctx) error {
 		}
 		fmt.Fprintf(&b, "  ⟨%q, %q, %s, %s, %s⟩%s\n", r.Style, r.Name, leanBool(r.Accepted), leanStrList(r.Changed), leanBool(r.RoundTrip), sep)
 	}
+	b.WriteString("]\n\ndef detectRows : List DetectRow := [\n")
+	drs := c20DetectRows(env)
+	for i, r := range drs {
+		sep := ","
+		if i == len(drs)-1 {
+			sep = ""
+		}
+		fmt.Fprintf(&b, "  ⟨%s, %d, %s, %s⟩%s\n", leanBool(r.Forced), r.File, leanBool(r.Deprecated), r.Observed, sep)
+	}
 	b.WriteString("]\nend OapiVerif.Gen.C20\n")
 	return os.WriteFile(filepath.Join(ctx.GenDir, "C20.lean"), []byte(b.String()), 0o644)
+}
+
+// ---- which configuration style the tool settles on ----
+
+type c20DetectRow struct {
+	Forced     bool
+	File       int // 0 none, 1 parses as old style only, 2 as new style only, 3 as both, 4 as neither
+	Deprecated bool
+	Observed   string // Lean: none (rejected) | some .old | some .new
+}
+
+// c20DetectRows runs the tool on every (-old-config-style, kind of file, deprecated flag present) and reads the style
+// it used off the defaults it applied: without a generate list the old style turns on the client, the new one does not.
+func c20DetectRows(env *c20Env) []c20DetectRow {
+	files := map[int]string{
+		1: c20Yaml(map[string]interface{}{"package": "p", "include-tags": []interface{}{"a"}}),
+		2: c20Yaml(map[string]interface{}{"package": "p", "output-options": map[string]interface{}{"include-tags": []interface{}{"a"}}}),
+		3: c20Yaml(map[string]interface{}{"package": "p"}),
+		4: c20Yaml(map[string]interface{}{"package": "p", "no-such-key": 1}),
+	}
+	var rows []c20DetectRow
+	for _, forced := range []bool{false, true} {
+		for kind := 1; kind <= 4; kind++ { // without a file both styles read the same flags: nothing tells them apart
+			for _, dep := range []bool{false, true} {
+				fs := map[string]string{"spec.json": `{"openapi":"3.0.3","info":{"title":"t","version":"1"},"paths":{}}`}
+				var args []string
+				if kind == 0 {
+					args = append(args, "-package", "p")
+				} else {
+					fs["cfg.yaml"] = files[kind]
+					args = append(args, "-config", "cfg.yaml")
+				}
+				if forced {
+					args = append(args, "-old-config-style")
+				}
+				if dep {
+					args = append(args, "-exclude-tags", "zz")
+				}
+				m, _ := env.effective(fs, args...)
+				obs := "none"
+				if m != nil {
+					obs = "some .new"
+					if m["generate.client"] == "true" {
+						obs = "some .old"
+					}
+				}
+				rows = append(rows, c20DetectRow{forced, kind, dep, obs})
+			}
+		}
+	}
+	return rows
 }
 
 // ---------- RUN ----------
@@ -965,22 +1027,31 @@ func c20Express(r *Rng, mode string, c c20Choice, flags []string) (map[string]st
 		}
 		files["cfg.yaml"] = c20Yaml(m)
 		args = []string{"-config", "cfg.yaml"}
-	case "old-file", "flags", "mixed-old":
-		// every item goes to the file or to a flag
+	case "old-file", "flags", "mixed-old", "inferred-old":
+		// every item goes to the file or to a flag. inferred-old: the file holds only keys both styles know, so that it
+		// reads as either; the old style then follows from a deprecated flag on the command line, not from -old-config-style
 		m := map[string]interface{}{}
-		toFile := func() bool {
+		shared := map[string]bool{"package": true, "output": true, "import-mapping": true}
+		deprecated := map[string]bool{"include-tags": true, "exclude-tags": true, "import-mapping": true, "exclude-schemas": true, "response-type-suffix": true}
+		sawDeprecated := false
+		toFile := func(key string) bool {
 			switch mode {
 			case "old-file":
 				return true
 			case "flags":
 				return false
+			case "inferred-old":
+				return shared[key] && r.Bool()
 			}
 			return r.Bool()
 		}
 		put := func(key string, yv interface{}, fv string) {
-			if toFile() {
+			if toFile(key) {
 				m[key] = yv
 			} else {
+				if deprecated[key] {
+					sawDeprecated = true
+				}
 				flagName := key
 				if key == "output" {
 					flagName = "o"
@@ -1024,11 +1095,15 @@ func c20Express(r *Rng, mode string, c c20Choice, flags []string) (map[string]st
 		if c.Initialism {
 			args = append(args, "-initialism-overrides")
 		}
+		style := []string{"-old-config-style"}
+		if mode == "inferred-old" && sawDeprecated {
+			style = nil
+		}
 		if len(m) > 0 {
 			files["cfg.yaml"] = c20Yaml(m)
-			args = append([]string{"-config", "cfg.yaml", "-old-config-style"}, args...)
+			args = append(append([]string{"-config", "cfg.yaml"}, style...), args...)
 		} else {
-			args = append([]string{"-old-config-style"}, args...)
+			args = append(style, args...)
 		}
 	}
 	return files, args
@@ -1051,14 +1126,14 @@ func c20Mask(s string) string {
 }
 
 func runC20(ctx *Ctx) error {
-	ctx.Res.Rule = "TAB (Gen/C20.lean, kernel-checked): target lists x {flag, old-style file}, every configuration key, every old-style key and legacy flag, through -output-config of the tool built from the working tree; RUN: seeded (document, configuration) x {new-style file, old-style file, legacy flags, file+flags}: bytes of the tool's output vs codegen.Generate with the equivalent configuration (header line masked), -output-config fed back reproduces the output, rejected configurations (unknown key at every level and style, unknown target, two servers) exit non-zero and leave no output; non-trivial = every (document, configuration, mode)"
+	ctx.Res.Rule = "TAB (Gen/C20.lean, kernel-checked): target lists x {flag, old-style file}, every configuration key, every old-style key and legacy flag, the configuration style settled on for every (-old-config-style, kind of file, deprecated flag), through -output-config of the tool built from the working tree; RUN: seeded (document, configuration) x {new-style file, old-style file, legacy flags, file+flags, a file readable in both styles + deprecated flags without -old-config-style}: bytes of the tool's output vs codegen.Generate with the equivalent configuration (header line masked), -output-config fed back reproduces the output, rejected configurations (unknown key at every level and style, unknown target, two servers) exit non-zero and leave no output; non-trivial = every (document, configuration, mode)"
 	bin, err := c20Build(ctx)
 	if err != nil {
 		return err
 	}
 	env := &c20Env{bin: bin, dir: ctx.Work}
 	n := ctx.N(40, 300)
-	modes := []string{"new-file", "old-file", "flags", "mixed-old"}
+	modes := []string{"new-file", "old-file", "flags", "mixed-old", "inferred-old"}
 	type job struct {
 		i    int
 		doc  J
